@@ -86,10 +86,11 @@ def run(prop, tier, seed):
         if i in acc:
             continue
         e = t["ev"][0] if t["ev"] else {}
-        d_ = "scenario %d: directory {%s}: keeper indexed %s, served %s, lost %s, altered %s, res %s" % (
+        d_ = "scenario %d: directory {%s}: keeper indexed %s, served %s, lost %s, altered %s, res %s; after deleting every indexed space: left behind %s, other files touched %s, refused %s" % (
             t["sc"], "; ".join(fdesc(f) for f in e.get("files", [])), [(x["key"], x["bl"], x["state"]) for x in e.get("indexed", [])],
-            e.get("served"), e.get("lost"), e.get("altered"), e.get("res"))
-        v.classify(dict(cause="index_rejected"), d_, dict(scenario=scen[i], event={k: e[k] for k in e if k != "files"}))
+            e.get("served"), e.get("lost"), e.get("altered"), e.get("res"), e.get("undeleted"), e.get("collateral"), e.get("refused"))
+        after_delete = bool(e.get("undeleted") or e.get("collateral") or e.get("refused"))
+        v.classify(dict(cause="delete_leaves_files" if (e.get("undeleted") and not e.get("collateral") and not e.get("refused")) else "index_rejected"), d_, dict(scenario=scen[i], event={k: e[k] for k in e if k != "files"}))
     if traces:
         e = traces[0]["ev"][0]
         v.cov["samples"].append(dict(directory=[fdesc(f) for f in e.get("files", [])], indexed=e.get("indexed"), served=e.get("served")))
